@@ -88,8 +88,10 @@ class Link:
                     drop = True
                     f.fire("d2h_truncate")
                 elif kind == "stall":
+                    # a response that arrives *late* (after its time-out, possibly during a later exchange of the same
+                    # call) is neither "truncated" nor "missing": not a fault kind the statement names -> extra class
                     f.stall_us += int(flt.get("us", 10_000_000))
-                    f.fire("d2h_stall")
+                    f.fire("d2h_late", extra=True)
                 elif kind == "insert":
                     self.rxq.append([t + f.stall_us, flt.get("byte", 0x5A)])
                     f.fire("d2h_insert", extra=True)
@@ -124,7 +126,7 @@ class Link:
                 f.fire("hid_short_report")
             elif kind == "stall":
                 f.stall_us += int(flt.get("us", 10_000_000))
-                f.fire("hid_stall")
+                f.fire("hid_late_report", extra=True)
             elif kind == "dup":
                 self.rxq.append([t + f.stall_us, rep])
                 f.fire("hid_dup_report", extra=True)
